@@ -19,7 +19,12 @@ Record pcase := mkPC {
 
 Record qcase := mkQC { qc_reg : list bytes; qc_req : p2req; qc_events : list oevent }.
 
-Inductive tcase := TP (c : pcase) | TQ (c : qcase).
+(* several prepares with one context: inputs, all observed events in order, per-prepare results *)
+Record scase := mkSC {
+  sc_gtx : bool; sc_xid : bytes; sc_items : list (action * list field * reply);
+  sc_events : list oevent; sc_oks : list bool }.
+
+Inductive tcase := TP (c : pcase) | TQ (c : qcase) | TS (c : scase).
 
 Definition ev_eqb_p (m : pevent) (o : oevent) : bool :=
   match m, o with
@@ -45,7 +50,15 @@ Fixpoint all2 {A B} (f : A -> B -> bool) (a : list A) (b : list B) : bool :=
   | _, _ => false
   end.
 
-(* disagreement codes: 1 prepare events, 2 prepare result, 3 phase-two events *)
+Fixpoint bools_eqb (a b : list bool) : bool :=
+  match a, b with
+  | [], [] => true
+  | x :: a', y :: b' => Bool.eqb x y && bools_eqb a' b'
+  | _, _ => false
+  end.
+
+(* disagreement codes: 1 prepare events, 2 prepare result, 3 phase-two events,
+   4 events of a prepare sequence on one context, 5 its results *)
 Definition check_case (c : tcase) : list N :=
   match c with
   | TP p =>
@@ -53,6 +66,10 @@ Definition check_case (c : tcase) : list N :=
       (if all2 ev_eqb_p evs (pc_events p) then [] else [1%N]) ++
       (if Bool.eqb ok (pc_ok p) then [] else [2%N])
   | TQ q => if all2 ev_eqb_q (phase2 (qc_reg q) (qc_req q)) (qc_events q) then [] else [3%N]
+  | TS c =>
+      (if all2 ev_eqb_p (prepare_seq (sc_gtx c) (sc_xid c) (sc_items c)) (sc_events c) then [] else [4%N]) ++
+      (if bools_eqb (map (fun p => snd (prepare (fst (fst p)) (sc_gtx c) (sc_xid c) (snd (fst p)) (snd p))) (sc_items c))
+                    (sc_oks c) then [] else [5%N])
   end.
 
 Fixpoint mismatches_from (i : nat) (cs : list tcase) : list (nat * N) :=
